@@ -189,10 +189,14 @@ def tasks(tier):
             assigns.append(tuple(reversed(range(1, k + 1))))       # permuted, offset by one, row 0 untouched
         else:
             assigns.append((1,))
+        if k > 1:
+            # repeated indices (a feature contracted with itself): all equal, first two equal, last two equal
+            rep = [tuple([0] * k), tuple([0, 0] + list(range(1, k - 1))), tuple(list(range(k - 1)) + [k - 2])]
+            if k > 2:
+                rep.append(tuple([0, 1, 1] + list(range(2, k - 1))))          # middle pair equal (j == k of a four-index map)
+            assigns += [a for a in rep if a not in assigns]
         if tier == "thorough":
             assigns = sorted(set(assigns) | set(itertools.permutations(range(k + 1), k)))
-            if k > 1:
-                assigns += [tuple([0] * k), tuple([0, 0] + list(range(1, k - 1)))]   # repeated indices
         for a in assigns:
             nx = max(max(a) + 1, 1)
             out.append(Task("map/%s/idx=%s" % (cls, ",".join(map(str, a))), h_map,
@@ -237,7 +241,7 @@ META = dict(
                "FeatNormalizerList.get_normalized_feature_vector/get_derivative_wrt_unnormed_features/get_derivative_of_normed_features/_get_rho_and_inh/_get_drho_and_dinh"],
     bounds=dict(sample_points="1 (quick), 2 (thorough, map leaves)", parameters="all symbolic reals (gamma>0, scale/center real, powers real)",
                 raw_features="symbolic; density-like rows >= 0, signed rows real; OmegaMap s2, alpha in [0,1e10] (clip inactive)",
-                index_assignments="identity + one permuted/offset (quick); all injective assignments into k+1 rows + repeated indices (thorough)",
+                index_assignments="identity + one permuted/offset + repeated indices (all equal / first two / last two / middle pair); thorough adds all injective assignments into k+1 rows",
                 paths="all feasible paths, cap 64 (600 for OmegaMap)", EPS="1e-16 literals = 0"),
     stubs=[],
     assumptions=["float64 modelled as exact reals (rounding outside the claim)",
